@@ -9,6 +9,7 @@ QUICK = [
     ('h_sc1_s11', 'nested parallel + deep history, T=1 light'),
     ('h_sc1_s12', 'deep history owned by one region of a parallel, T=1 light'),
     ('h_sc1_s13', 'parallel with a final nested two levels below a region, T=1 light'),
+    ('h_sc1_s14', 'deep history above a parallel with two compound regions, T=1 light'),
     ('h_sc1e_s1', 'event-less selection + late binding'), ('h_sc1e_s4', 'event-less + late, history'), ('h_sc1e_s6', 'event-less + late, finals'),
     ('h_sc2r_s3', 'two transitions in different regions of a parallel state'),
     ('h_sc1i_s1', 'reader-built root (never in the configuration) + pre-state configuration list in reverse document order, compound'), ('h_sc1i_s3', 'reader-built root, parallel'), ('h_sc1i_s4', 'reader-built root, history'),
@@ -20,7 +21,7 @@ THOROUGH_EXTRA = [
     ('h_sc2r_s7', 'T=2 restricted'), ('h_sc2r_s1', 'T=2 restricted'),
     ('h_sc2_s0', 'T=2'), ('h_sc2_s1', 'T=2'), ('h_sc2_s6', 'T=2'), ('h_sc2_s9', 'T=2'), ('h_sc2_s4', 'T=2'), ('h_sc2_s2', 'T=2'),
 ]
-BOUNDS = {'states': '<= 11 (14 catalogue shapes: nesting <= 4, <= 2 parallel states, <= 1 history state, finals at every level)',
+BOUNDS = {'states': '<= 11 (15 catalogue shapes: nesting <= 4, <= 2 parallel states, <= 1 history state, finals at every level)',
           'ordinary transitions': 'T = 1 (all shapes) and T = 2 (parallel shapes quick; more shapes thorough), each with symbolic source, 0..2 targets, type, event, guard outcome',
           'pre-state': 'every legal configuration of the shape x every legal recorded history value (inductive step)'}
 ASSUME = [
